@@ -100,4 +100,13 @@ CHECKS["C11"] = {
     "note": "Suspended runs (orders / pending promises) left behind by the host are not reset by prepare() and are not part of the model; effects the victim makes deliberately on the global object are excluded by the property.",
     "design_ref": "DESIGN.md §4 C11",
 }
+CHECKS["C02"] = {
+    "technique": "Lean 4 proof over M-Heap (a collection is the identity on the reachable sub-graph; idempotent) + schedule-differential runs of template and generated programs over 11 collection schedules",
+    "text": "collect_reach_iff (a collection changes no reachability), collect_invisible (contents and edges of every reachable object are untouched), collect_roots, collect_idempotent and gc_transparent_step "
+            "(an operation gives the same reachable contents whether or not a collection ran just before it) are Lean theorems over the model tied to src/gc.rs by C13. That interpreter and natives keep what they use rooted is searched "
+            "for violations: 25 template programs targeting natives that allocate while holding inputs, allocating callbacks/getters/proxy traps, generators, pending promises with both reactions, async functions, closures, "
+            "collections, iterables, plus generated programs and order/host-promise scripts run with collection disabled, at the default threshold, thresholds 1/2/3/5/7/100 and host collect() after every 1/7/50 steps; every schedule must give the outcome of the collection-free run.",
+    "note": "Root discipline of the ~400 natives is not proved, only exercised; a premature reclamation is visible only if the object is used afterwards in a way that changes value, console text or error class. No stale-handle monitor (hook H1 of the design) was built.",
+    "design_ref": "DESIGN.md §4 C02",
+}
 NOT_YET = {}
